@@ -1,4 +1,6 @@
+import Bch.Props.C08Gcs
 import Bch.Proofs.Checked
+import Bch.Proofs.CheckedBech32
 /-
 C08 — no parser panics, hangs or over-allocates on untrusted input.
 
@@ -13,7 +15,8 @@ primitive returning `Except Fault`, cited with its Go line. For each entry point
 * negative examples: the transcription *without* the guard faults (so the theorems are not vacuous),
 
 plus the step bounds for the two recursive/looping decoders (merkle, GCS) and the allocation bound for
-`HashMatchAny`. Collected in `C08_all`.
+`HashMatchAny`. Collected in `C08_all`. The bech32 package (`Bch/Proofs/CheckedBech32.lean`: `Decode`,
+`Encode`, `ConvertBits` with step and allocation bounds) is section 10, collected in `C08_bech32_all`.
 
 Not covered here (stated, not hidden): time bounds for the remaining (single-pass) parsers, which have no
 loop other than `for i < len`; `GetMatchedIndices` (exponential re-checking, fixed by e69b75a, see C10);
@@ -386,5 +389,156 @@ theorem C08_all :
    fun _ _ comb zero msg => extractMsgC_no_fault comb zero msg,
    fun sip f data => ⟨_, MatchAnyC_eq_model sip f data⟩, ZipMatchAnyC_no_fault,
    fun W calls i => (getTxC_no_fault_reachable W calls i).1, convertHexC_no_fault⟩
+
+/-! ## 10. bech32 `Decode` / `Encode` / `ConvertBits` (/repo/bech32/bech32.go)
+
+Transcriptions in `Bch/Proofs/CheckedBech32.lean`. `Decode`/`Encode` and their helpers (`toBytes`,
+`toChars`, `bech32Checksum`, `bech32VerifyChecksum`, `bech32Polymod`, `bech32HrpExpand`) index and slice;
+`ConvertBits` does neither, what untrusted widths can do to it is make its inner loop spin forever while
+appending to the result. -/
+
+/-- Every byte string: `bech[i]` in the character loop, `bech[:one]` and `bech[one+1:]` with
+`one = strings.LastIndexByte(bech, '1')` (an `int`, `-1` if absent), `chars[i]` in `toBytes`, `hrp[i]`,
+`integers[i] = …` and `gen[i]` in the checksum, `bech[len(bech)-6:]`, `decoded[:len(decoded)-6]` (twice) and
+`charset[b]` on the checksum-failure path are all in range. No hypothesis. -/
+theorem bech32_DecodeC_no_fault (bech : Bytes) : ∃ r, Proofs.CheckedBech32.DecodeC bech = .ok r :=
+  Proofs.CheckedBech32.DecodeC_no_fault bech
+
+/-- … and the checked code computes the model's `Decode`; where the model returns an error the checked
+code returns `.ok (.error …)`, not a fault -/
+theorem bech32_DecodeC_eq_model (bech : Bytes) :
+    Proofs.CheckedBech32.DecodeC bech = .ok (Bech32.Decode bech) :=
+  Proofs.CheckedBech32.DecodeC_eq_model bech
+
+/-- NEGATIVE, general (the separator test matters): a string of legal length, printable, lower-case and
+without `'1'` makes `bech[:one]` fault (`one = -1`) once the `one < 1 || one+7 > len(bech)` test is dropped,
+with or without the length test. -/
+theorem bech32_Decode_noSepGuard_fault (gLen : Bool) (bech : Bytes) (hlen : 8 ≤ bech.length ∧ bech.length ≤ 90)
+    (hch : bech.any (fun c => c < 33 ∨ c > 126) = false) (hlow : bech = bech.map Bech32.toLower)
+    (h1 : (49 : UInt8) ∉ bech) : Proofs.CheckedBech32.DecodeG gLen false bech = .error .sliceOOB :=
+  Proofs.CheckedBech32.DecodeG_noSep_fault gLen bech hlen hch hlow h1
+
+-- non-vacuity of the hypotheses: "abcdefgh"
+example : (8 ≤ ([97, 98, 99, 100, 101, 102, 103, 104] : Bytes).length ∧
+      ([97, 98, 99, 100, 101, 102, 103, 104] : Bytes).length ≤ 90) ∧
+    ([97, 98, 99, 100, 101, 102, 103, 104] : Bytes).any (fun c => c < 33 ∨ c > 126) = false ∧
+    ([97, 98, 99, 100, 101, 102, 103, 104] : Bytes) = ([97, 98, 99, 100, 101, 102, 103, 104] : Bytes).map Bech32.toLower ∧
+    (49 : UInt8) ∉ ([97, 98, 99, 100, 101, 102, 103, 104] : Bytes) := by decide +kernel
+
+/-- NEGATIVE, concrete: without the separator test "abcdefgh" faults on `bech[:one]` and "abcdefg1"
+(separator among the last six characters) on `decoded[:len(decoded)-6]`; without both tests the empty
+string and "a1" fault. (The lower length bound alone is implied by the separator test.) -/
+theorem bech32_Decode_noGuard_witnesses :
+    Proofs.CheckedBech32.DecodeG true false [97, 98, 99, 100, 101, 102, 103, 104] = .error .sliceOOB ∧
+    Proofs.CheckedBech32.DecodeG true false [97, 98, 99, 100, 101, 102, 103, 49] = .error .sliceOOB ∧
+    Proofs.CheckedBech32.DecodeG false false [] = .error .sliceOOB ∧
+    Proofs.CheckedBech32.DecodeG false false [97, 49] = .error .sliceOOB :=
+  ⟨Proofs.CheckedBech32.DecodeG_noSep_witness, Proofs.CheckedBech32.DecodeG_lateSep_witness,
+   Proofs.CheckedBech32.DecodeG_noGuards_witness.1, Proofs.CheckedBech32.DecodeG_noGuards_witness.2⟩
+
+example : Bytes.ofString "abcdefgh" = [97, 98, 99, 100, 101, 102, 103, 104] ∧
+    Bytes.ofString "abcdefg1" = [97, 98, 99, 100, 101, 102, 103, 49] ∧ Bytes.ofString "a1" = [97, 49] := by
+  decide +kernel
+-- the code as it is rejects the same inputs with an error value
+example : Proofs.CheckedBech32.DecodeC [97, 98, 99, 100, 101, 102, 103, 104] = .ok (.error .sep) ∧
+    Proofs.CheckedBech32.DecodeC [97, 98, 99, 100, 101, 102, 103, 49] = .ok (.error .sep) ∧
+    Proofs.CheckedBech32.DecodeC [] = .ok (.error .length) := by decide +kernel
+-- non-vacuity: valid strings (BIP 173 test vectors) decode without fault to the expected hrp / data, a
+-- wrong checksum goes through the message-building branch without fault
+example : Proofs.CheckedBech32.DecodeC (Bytes.ofString "abcdef1qpzry9x8gf2tvdw0s3jn54khce6mua7lmqqqxw")
+    = .ok (.ok (Bytes.ofString "abcdef", (List.range 32).map UInt8.ofNat)) := by decide +kernel
+example : Proofs.CheckedBech32.DecodeC (Bytes.ofString "A12UEL5L") = .ok (.ok (Bytes.ofString "a", [])) := by
+  decide +kernel
+example : Proofs.CheckedBech32.DecodeC (Bytes.ofString "A12UEL5M") = .ok (.error .checksum) := by
+  decide +kernel
+
+/-- `Encode`: `hrp[i]`, `integers[i] = …`, `gen[i]` in the checksum and `charset[b]` behind
+`int(b) >= len(charset)`. Every hrp, every data (incl. bytes ≥ 32, which give the error value). -/
+theorem bech32_EncodeC_no_fault (hrp data : Bytes) : ∃ r, Proofs.CheckedBech32.EncodeC hrp data = .ok r :=
+  Proofs.CheckedBech32.EncodeC_no_fault hrp data
+
+theorem bech32_EncodeC_eq_model (hrp data : Bytes) :
+    Proofs.CheckedBech32.EncodeC hrp data = .ok (Bech32.Encode hrp data) :=
+  Proofs.CheckedBech32.EncodeC_eq_model hrp data
+
+/-- NEGATIVE: without the range test of `toChars` the data byte 32 makes `charset[b]` fault -/
+theorem bech32_Encode_noGuard_witness :
+    Proofs.CheckedBech32.EncodeG false [97] [32] = .error .indexOOB ∧
+    Proofs.CheckedBech32.toCharsG false [32] = .error .indexOOB :=
+  ⟨Proofs.CheckedBech32.EncodeG_false_witness, Proofs.CheckedBech32.toCharsG_false_witness⟩
+
+example : Proofs.CheckedBech32.EncodeC [97] [32] = .ok none := by decide +kernel
+example : Proofs.CheckedBech32.EncodeC (Bytes.ofString "a") [] = .ok (some (Bytes.ofString "a12uel5l")) := by
+  decide +kernel
+
+/-- `ConvertBits`, all inputs, all widths (0, > 8 and ≥ 256 included: the guard rejects them with the error
+value), `pad` either way: the inner loop `for remFromBits > 0`, run on a budget of 8 iterations per input
+byte, never exhausts the budget (exhaustion is the only fault this transcription can report). -/
+theorem bech32_ConvertBitsC_no_fault (data : Bytes) (fromBits toBits : Nat) (pad : Bool) :
+    ∃ r, Proofs.CheckedBech32.ConvertBitsC data fromBits toBits pad = .ok r :=
+  Proofs.CheckedBech32.ConvertBitsC_no_fault data fromBits toBits pad
+
+/-- … and the `uint8` arithmetic with Go shift semantics computes the model's `ConvertBits` -/
+theorem bech32_ConvertBitsC_eq_model (data : Bytes) (fromBits toBits : Nat) (pad : Bool) :
+    Proofs.CheckedBech32.ConvertBitsC data fromBits toBits pad
+      = .ok (Bech32.ConvertBits data fromBits toBits pad) :=
+  Proofs.CheckedBech32.ConvertBitsC_eq_model data fromBits toBits pad
+
+/-- STEP BOUND (no hang). The run executes `n` inner-loop iterations in total with
+`n ≤ len(data)·fromBits` and `n ≤ len(data) + len(data)·fromBits/toBits` (`n = 0` for rejected widths). -/
+theorem bech32_ConvertBitsC_steps (data : Bytes) (fromBits toBits : Nat) (pad : Bool) :
+    ∃ n, Proofs.CheckedBech32.ConvertBitsStepsC data fromBits toBits pad = .ok n ∧
+      n ≤ data.length * fromBits ∧ n ≤ data.length + data.length * fromBits / toBits :=
+  Proofs.CheckedBech32.ConvertBitsC_steps data fromBits toBits pad
+
+/-- the budget is not what stops the loop: every budget ≥ 8 gives the same result and iteration count -/
+theorem bech32_ConvertBits_fuel_irrelevant (data : Bytes) (fromBits toBits : Nat) (pad : Bool) (fuel : Nat)
+    (h : 8 ≤ fuel) : Proofs.CheckedBech32.ConvertBitsG true fuel data fromBits toBits pad
+      = Proofs.CheckedBech32.ConvertBitsG true 8 data fromBits toBits pad :=
+  Proofs.CheckedBech32.ConvertBitsG_fuel_irrelevant data fromBits toBits pad fuel h
+
+/-- ALLOCATION. A successful conversion returns at most `len(data)·fromBits/toBits + 1` bytes. -/
+theorem bech32_ConvertBitsC_alloc (data : Bytes) (fromBits toBits : Nat) (pad : Bool) (out : Bytes)
+    (h : Proofs.CheckedBech32.ConvertBitsC data fromBits toBits pad = .ok (.ok out)) :
+    out.length ≤ data.length * fromBits / toBits + 1 :=
+  Proofs.CheckedBech32.ConvertBitsC_alloc data fromBits toBits pad out h
+
+/-- NEGATIVE (hang): without the width test, `toBits = 0` and any non-empty input use up *every* budget:
+the Go loop would not terminate (its proof shows that each iteration takes the `append` branch, so it
+would also allocate without bound). -/
+theorem bech32_ConvertBits_noGuard_hang (fuel : Nat) (b : UInt8) (data : Bytes) (fromBits : Nat)
+    (h1 : 1 ≤ fromBits) (h8 : fromBits ≤ 8) (pad : Bool) :
+    Proofs.CheckedBech32.ConvertBitsG false fuel (b :: data) fromBits 0 pad
+      = .error Proofs.CheckedBech32.outOfFuel :=
+  Proofs.CheckedBech32.ConvertBitsG_false_hang fuel b data fromBits h1 h8 pad
+
+-- concrete runs: 8→5 with padding (5 iterations), the same without padding (incomplete group), 5→8 back,
+-- rejected widths, and the guard-less hang on a budget of 1000
+example : Proofs.CheckedBech32.ConvertBitsG true 8 [0xff, 0x01] 8 5 true = .ok (.ok [31, 28, 0, 16], 5) := by
+  decide +kernel
+example : Proofs.CheckedBech32.ConvertBitsG true 8 [0xff, 0x01] 8 5 false = .ok (.error .incomplete, 5) := by
+  decide +kernel
+example : Proofs.CheckedBech32.ConvertBitsG true 8 [31, 28, 0, 16] 5 8 false = .ok (.ok [0xff, 0x01], 6) := by
+  decide +kernel
+example : Proofs.CheckedBech32.ConvertBitsC [1] 8 0 true = .ok (.error .groups) ∧
+    Proofs.CheckedBech32.ConvertBitsC [1] 0 5 true = .ok (.error .groups) ∧
+    Proofs.CheckedBech32.ConvertBitsC [1] 8 9 true = .ok (.error .groups) ∧
+    Proofs.CheckedBech32.ConvertBitsC [1] 300 5 true = .ok (.error .groups) := by decide +kernel
+example : Proofs.CheckedBech32.ConvertBitsG false 1000 [1] 8 0 true = .error .indexOOB := by decide +kernel
+-- the hypothesis of the allocation bound is satisfiable and the bound is attained: 2 bytes of 8 bits give
+-- 16/5 + 1 = 4 groups of 5
+example : Proofs.CheckedBech32.ConvertBitsC [0xff, 0x01] 8 5 true = .ok (.ok [31, 28, 0, 16]) ∧
+    ([31, 28, 0, 16] : Bytes).length = ([0xff, 0x01] : Bytes).length * 8 / 5 + 1 := by decide +kernel
+-- the second step bound is attained, and `len·fromBits/toBits + 1` alone would NOT be a bound on the
+-- iterations: eight 1-bit inputs regrouped to one byte take 8 iterations (8·1/8 + 1 = 2)
+example : Proofs.CheckedBech32.ConvertBitsG true 8 [1, 0, 1, 0, 1, 0, 1, 0] 1 8 false = .ok (.ok [0xaa], 8) := by
+  decide +kernel
+
+/-- No bech32 entry point panics or hangs: every checked transcription returns a value for every input. -/
+theorem C08_bech32_all :
+    (∀ bech, ∃ r, Proofs.CheckedBech32.DecodeC bech = .ok r) ∧
+    (∀ hrp data, ∃ r, Proofs.CheckedBech32.EncodeC hrp data = .ok r) ∧
+    (∀ data fromBits toBits pad, ∃ r, Proofs.CheckedBech32.ConvertBitsC data fromBits toBits pad = .ok r) :=
+  ⟨bech32_DecodeC_no_fault, bech32_EncodeC_no_fault, bech32_ConvertBitsC_no_fault⟩
 
 end Bch.Props.C08
